@@ -107,6 +107,14 @@ def sliding_pwc(classes, ml, cm, seed, **kw):
                                    window_size=kw.pop("window_size", 8), random_state=seed, **kw)
 
 
+@_c("sliding_pwc_cls")
+def sliding_pwc_cls(classes, ml, cm, seed, **kw):
+    # the wrapped classifier declares the classes as well, the cost matrix is given to the wrapper only
+    inner = ParzenWindowClassifier(metric_dict={"gamma": 0.05}, classes=classes, missing_label=ml, random_state=0)
+    return SlidingWindowClassifier(inner, classes=classes, missing_label=ml, cost_matrix=cm,
+                                   window_size=kw.pop("window_size", 8), random_state=seed, **kw)
+
+
 @_c("ens_soft", multi=True)
 def ens_soft(classes, ml, cm, seed, n_annot=3, **kw):
     return AnnotatorEnsembleClassifier(
